@@ -21,14 +21,14 @@ META = {
         'Runtime oracle: the printed trace (tags, ERR, ERL inside handlers, final message and line) of each generated '
         'program equals that of an independent model: trap -> handler line with ERR/ERL, RESUME re-executes the failing '
         'statement (not its line), RESUME NEXT continues after it (also inside THEN/ELSE branches and from subroutines), '
-        'RESUME n, a fault inside a DEF FN body counts as a fault of the CALLING statement (ERL, RESUME, RESUME NEXT), an error inside a handler stops with that message, RESUME outside a handler gives error 20, no handler '
+        'RESUME n, RESUME met without an error stops with error 20 also while a trap is armed (fall-through, GOTO/GOSUB into handler code), the program text ending inside a handler gives No RESUME naming the last line, a fault inside a DEF FN body counts as a fault of the CALLING statement (ERL, RESUME, RESUME NEXT), an error inside a handler stops with that message, RESUME outside a handler gives error 20, no handler '
         '-> message naming the line, direct-mode errors give ERL 65535 and a message without line. ERROR n for all n in '
         '1..255 is enumerated both untrapped (message table) and trapped (ERR value) in the directed core.'),
     'level_note': (
         'Trusted: harness, printer. The error CODE of each real fault comes from the GW-BASIC manual (table FAULTS in '
         'vf/gen/c19_progs.py). Not pinned by the statement, hence not generated: ERR/ERL outside a handler or after RESUME; '
         'division by zero without an armed trap (soft-handled: message and continue) - 1/0, 7\\0, 7 MOD 0 are generated only '
-        'where a trap is armed, else the program is discarded; RESUME outside a handler while a trap is armed; ON ERROR '
+        'where a trap is armed, else the program is discarded; ON ERROR '
         'inside a handler; falling off the program end inside a handler (No RESUME); soft arithmetic errors in a DEF FN body without an armed trap; faults in IF conditions and in '
         'IF..THEN line-number jumps (what "the next statement" is there); ERROR 0 / ERROR 256.'),
     'rule': ('case = one generated program (text + direct line); distinct by text; non-trivial = at least one error was '
@@ -43,7 +43,8 @@ META = {
         'gen_fault_in_if_branch', 'gen_gosub_to_faulting_sub', 'gen_fault_in_loop', 'gen_float_div_zero_trapped',
         'direct_mode_handler_entered', 'error_table_codes', 'directed_cases',
         'ended_by_defined_error_code', 'ended_by_undefined_error_code', 'budget_exhausted',
-        'ref_fn:body-raises', 'gen_fault_in_def_fn_body']},
+        'ref_fn:body-raises', 'gen_fault_in_def_fn_body',
+        'ref_resume:outside-handler:trap-armed', 'ref_fatal:no-resume', 'gen_jump_into_handler_code', 'gen_main_runs_into_handler']},
     'timeout': {'quick': 600, 'thorough': 7200},
 }
 
@@ -108,6 +109,24 @@ DIRECTED = [
     ('resume-next:outside-handler', ['10 PRINT "a"', '20 RESUME NEXT'], None, b'a\r\nRESUME without error in 20' + E),
     ('resume:after-handler-finished', ['10 ON ERROR GOTO 100', '20 ERROR 5', '30 ON ERROR GOTO 0', '40 RESUME', H + 'RESUME NEXT'], None,
      b'h 5  20 \r\nRESUME without error in 40' + E),
+    ('resume:outside-handler-with-trap-armed:main-runs-into-handler',
+     ['10 ON ERROR GOTO 100', '20 PRINT "a"', '100 PRINT "h":RESUME NEXT'], None, b'a\r\nh\r\nRESUME without error in 100' + E),
+    ('resume:outside-handler-with-trap-armed:gosub-into-handler',
+     ['10 ON ERROR GOTO 100', '20 PRINT "a":GOSUB 100:PRINT "b"', '30 END', '100 PRINT "h":RESUME NEXT'], None,
+     b'a\r\nh\r\nRESUME without error in 100' + E),
+    ('resume:outside-handler-with-trap-armed:goto-into-handler-after-a-handled-error',
+     ['10 ON ERROR GOTO 100', '20 ERROR 5', '30 PRINT "a":GOTO 110', '40 END', '100 PRINT "h";ERR;ERL', '110 PRINT "r":RESUME NEXT'], None,
+     b'h 5  20 \r\nr\r\na\r\nr\r\nRESUME without error in 110' + E),
+    ('resume:outside-handler-with-trap-armed:resume-line', ['10 ON ERROR GOTO 100', '20 PRINT "a":RESUME 40', '30 END', '40 PRINT "no"',
+                                                           '100 PRINT "h":RESUME NEXT'], None, b'a\r\nRESUME without error in 20' + E),
+    ('no-resume:program-ends-inside-handler',
+     ['10 ON ERROR GOTO 100', '20 ERROR 5', '30 PRINT "no"', '100 PRINT "h";ERR;ERL', '110 PRINT "x"'], None,
+     b'h 5  20 \r\nx\r\nNo RESUME in 110' + E),
+    ('no-resume:end-inside-handler-is-fine',
+     ['10 ON ERROR GOTO 100', '20 ERROR 5', '30 PRINT "no"', '100 PRINT "h";ERR;ERL', '110 END'], None, b'h 5  20 \r\n'),
+    ('error-statement:inside-handler-with-trap-armed-stops',
+     ['10 ON ERROR GOTO 100', '20 ERROR 5', '30 PRINT "no"', '100 PRINT "h";ERR;ERL:ERROR 200'], None,
+     b'h 5  20 \r\nUnprintable error in 100' + E),
     ('no-handler:message-names-line', ['10 PRINT "a"', '20 PRINT "b":ERROR 53:PRINT "no"'], None, b'a\r\nb\r\nFile not found in 20' + E),
     ('no-handler:undefined-code', ['10 ERROR 200'], None, b'Unprintable error in 10' + E),
     ('on-error-goto-0:switches-trap-off', ['10 ON ERROR GOTO 100', '20 ON ERROR GOTO 0', '30 PRINT "a":ERROR 5', H + 'RESUME NEXT'], None,
